@@ -8,7 +8,7 @@ from common import Kernel, call_impl, coq_bool, coq_list, coq_Z, fl, flv, grid_v
 
 ID = "C17"
 N_CASES = {"quick": 340, "thorough": 5000, "search": 3000}
-RULE = ("seeded streams: grid boxes (zero-thickness sizes, negative sizes) each with a random call sequence of accessor reads "
+RULE = ("seeded streams: a far-offset share (20%: a small dyadic scene translated by 2^24..2^31 per axis, exactly representable; boxes, clouds, query points; distances, sizes and index pairs judged relative to the scene, not to the coordinates); grid boxes (zero-thickness sizes, negative sizes) each with a random call sequence of accessor reads "
         "on ONE Box (some returned arrays modified in place) compared with a fresh Box; extreme power-of-two scales and a 10% int64 share in "
         "every tier; round 3-D clouds whose farthest pair is inside the bounding box; grid clouds with coincident / coplanar / "
         "repeated points at power-of-two scales and far offsets, random float clouds (oracle + tolerance), query points "
@@ -283,6 +283,14 @@ def gen_cases(rng, n, tier):
         is_int = rng.random() < 0.1
         if is_int:
             scale = 2.0 ** rng.randint(2, 4)
+        # far-offset stream: a small scene on a fine dyadic grid translated far from the origin (2^24..2^31 per axis,
+        # mixed signs; every coordinate stays exactly representable).  Differences of points are exact there, whereas a
+        # formula that subtracts large squares or products (|p|^2 + |q|^2 - 2 p.q, dot(p,n) - dot(o,n)) drowns in
+        # rounding.  Distances, sizes and every discrete answer are judged relative to the SCENE, not to the coordinates.
+        is_far = (not is_int) and rng.random() < 0.2
+        if is_far:
+            scale = 2.0 ** -rng.randint(2, 5)
+            far = [rng.choice([-1, 1]) * float(2 ** rng.randint(24, 31) + rng.randint(0, 1023)) for _ in range(3)]
         if r < 0.2:
             o = [x * scale for x in grid_vec(rng)]
             s = [rng.choice([0, 0, 1, 2, 3, 5, 8]) / 2 * scale for _ in range(3)]
@@ -368,7 +376,31 @@ def gen_cases(rng, n, tier):
                 cases.append({"kind": "percentile", "points": pts, "axis": ax, "q": qq})
         if is_int and cases[-1]["kind"] in INT_KINDS:
             cases[-1]["int"] = True
+        if is_far and cases[-1]["kind"] in FAR_KINDS:
+            _translate(cases[-1], far)
     return cases
+
+
+FAR_KINDS = ("box", "from_points", "bounding_box", "contains", "extent", "percentile")
+FAR = "_far_offset"
+
+
+def _translate(c, far):
+    def mv(p):
+        return [x + d for x, d in zip(p, far)]
+
+    if "points" in c:
+        c["points"] = [mv(p) for p in c["points"]]
+    if "origin" in c:
+        c["origin"] = mv(c["origin"])
+    if "rows" in c:
+        c["rows"] = [[mv(p), a] for p, a in c["rows"]]
+    c["kind"] += FAR
+
+
+def _base_kind(c):
+    k = c["kind"]
+    return k[:-len(FAR)] if k.endswith(FAR) else k
 
 
 INT_KINDS = ("box", "box_negative", "from_points", "bounding_box", "contains", "extent", "percentile")
@@ -392,7 +424,7 @@ def run_impl(c):
     from polliwog.pointcloud import extent, percentile
 
     def go():
-        kind = c["kind"]
+        kind = _base_kind(c)
         if kind.startswith("box"):
             o, s = _a(c["origin"], c), _a(c["size"], c)
             b = Box(o, s)
@@ -450,7 +482,7 @@ def _res(o, ok):
 
 
 def coq_case(c, o):
-    kind = c["kind"]
+    kind = _base_kind(c)
     if kind.startswith("box"):
         return "CBox %s %s %s" % (qv(c["origin"]), qv(c["size"]), _res(o, lambda o: flv(o["obs"])))
     if kind == "bounding_box":
@@ -502,6 +534,8 @@ def _box_oracle(c, o):
         return "after the reads %s, observable #%d of the same Box is %r, a fresh Box gives %r" % (done, k, o["obs"][k], o["fresh_obs"][k])
     v = _F(o["obs"])
     mag = max([abs(x) for x in og + sz] + [Fr(1, 2 ** 1000)])
+    if c["kind"].endswith(FAR):
+        mag = max([abs(x) for x in sz] + [Fr(1, 2 ** 1000)])  # exact data: judged relative to the size of the box
     mn, mx, mid, whd = v[0:3], v[3:6], v[6:9], v[9:12]
     center, floor, vol, area = v[12:15], v[15:18], v[18], v[19]
     ranges, corners, planes = v[20:26], v[26:50], v[50:86]
@@ -546,6 +580,9 @@ def _from_points_oracle(c, o):
     ps = [_F(p) for p in c["points"]]
     og, sz = _F(o["origin"]), _F(o["size"])
     mag = max([abs(x) for p in ps for x in p])  # relative to the data, no floor at 1
+    if c["kind"].endswith(FAR):
+        # exactly representable far-away cloud: max - min is exact, judged relative to the size of the cloud
+        mag = max(max(p[j] for p in ps) - min(p[j] for p in ps) for j in range(3))
     for j in range(3):
         lo, hi = min(p[j] for p in ps), max(p[j] for p in ps)
         if og[j] != lo:
@@ -615,11 +652,12 @@ def _percentile_oracle(c, o):
     sel = coords[lo] + (coords[hi] - coords[lo]) * (vi - lo)
     cen = [sum(p[j] for p in ps) / n for j in range(3)]
     along = sum(r[j] * u[j] for j in range(3))
-    if abs(along - sel) > 100 * TOL * mag:
+    tol = Fr(1, 10 ** 12) * mag if c["kind"].endswith(FAR) else 100 * TOL * mag
+    if abs(along - sel) > tol:
         return "coordinate of the result along the axis is %s, the requested percentile of the coordinates is %s" % (float(along), float(sel))
     d = [r[j] - cen[j] for j in range(3)]
     t = sum(d[j] * u[j] for j in range(3))
-    if any(abs(d[j] - t * u[j]) > 100 * TOL * mag for j in range(3)):
+    if any(abs(d[j] - t * u[j]) > tol for j in range(3)):
         return "the result is not on the line through the centroid along the axis"
     return None
 
@@ -631,7 +669,7 @@ DEFINITIONAL = ["C17_bounding_box_is_from_points"]
 
 
 def oracle(c, o):
-    kind = c["kind"]
+    kind = _base_kind(c)
     raised = isinstance(o, dict) and "raise" in o
     if kind in EXPECT_RAISE:
         if not raised:
